@@ -16,7 +16,8 @@ PROPERTY = "C16"
 RULE = ("(exhaustive) every entry of KNOWN_SETTINGS x every non-empty subset of the sources able to express it (command line, "
         "GUNICORN_CMD_ARGS, config file, framework dict) x every ordered pair of distinct valid values of its validator family "
         "(families include falsy values: 0, '', False, None where the validator takes it, and list-valued/append options) ; plus one invalid value per validator family in "
-        "each source alone and below a valid higher-priority mention; plus -c/--config given by CLI vs environment; plus Hypothesis-drawn "
+        "each source alone and below a valid higher-priority mention; plus reload histories (the file mentions the setting, is edited - other "
+        "value or mention removed - and the application reloads its configuration); plus -c/--config given by CLI vs environment; plus Hypothesis-drawn "
         "mixes of 1-6 settings over random source subsets. Oracle: priority fold CLI > env > file > framework dict > default on the "
         "validator's normal form, every unmentioned setting equals its built-in default, an invalid value => SystemExit != 0. "
         "non-trivial = >=2 sources mention the same setting with different values, or an invalid value is present; distinct by case hash")
@@ -212,7 +213,7 @@ def same(a, b):
     return a == b and type(a) is type(b)
 
 
-def load(g, mentions, config_flags=None):
+def load(g, mentions, config_flags=None, then_file=None):
     """mentions: {source: {setting: (spec, cli_tokens)}} -> ("ok", {name: value}) | ("exit", code)"""
     from gunicorn.app.wsgiapp import WSGIApplication
     scratch = g["scratch"]
@@ -254,6 +255,13 @@ def load(g, mentions, config_flags=None):
         sys.stdout = io.StringIO()
         try:
             app = App("%(prog)s [OPTIONS] [APP_MODULE]", prog="gunicorn")
+            if then_file is not None:
+                # the configuration file is edited and the application reloads its configuration (what SIGHUP does)
+                with open(conf, "w") as f:
+                    for i, (k, v) in enumerate(sorted(then_file.items())):
+                        f.write(file_source_line(k, v[0], imported=False))
+                    f.write("# edited\nhelper_value = 6\n")
+                app.reload()
         except SystemExit as e:
             return "exit", (e.code if isinstance(e.code, int) else 1)
         res = {k: v.get() for k, v in app.cfg.settings.items()}
@@ -309,6 +317,19 @@ def extra_cases(tier, seed, shard, nshards):
                 higher = [x for x in srcs if SOURCES.index(x) < SOURCES.index(s)]
                 if higher:
                     yield {"kind": "invalid", "setting": name, "bad": bi, "source": s, "above": higher[0]}
+    # reload: the file mentions the setting, is edited (other value, or the mention removed), and the configuration is loaded again
+    for name in sorted(g["families"]):
+        if name in ("spew", "default_proc_name", "config"):
+            continue            # Application.reload() installs the spew trace function in this very process; the application argument sets
+                                # default_proc_name (see ASSUMPTIONS)
+        f = g["families"][name]
+        nv = len(f["vals"])
+        for i in range(nv):
+            for second in [None] + [j for j in range(nv) if j != i][:2]:
+                for with_dict in (False, True):
+                    n += 1
+                    if n % nshards == shard:
+                        yield {"kind": "reload", "setting": name, "first": i, "second": second, "dict": (i + 1) % nv if with_dict else None}
     for which in ("cli-over-env", "env-only", "cli-only"):
         n += 1
         if n % nshards == shard:
@@ -361,6 +382,40 @@ def run_case(case):
             V("config-file-choice", "config-flag-" + case["which"], {"result": kind, "workers_threads": None if kind != "ok" else
                                                                       (res["workers"], res["threads"])}, want)
         return Outcome(vio, True, classes, sample=case)
+
+    if case["kind"] == "reload":
+        name = case["setting"]
+        f = fam[name]
+        first = pick(f, case["first"], "file")
+        mentions = {"file": {name: first}}
+        if case["dict"] is not None:
+            mentions["dict"] = {name: pick(f, case["dict"], "dict")}
+        then = {} if case["second"] is None else {name: pick(f, case["second"], "file")}
+        kind, res = load(g, mentions, then_file=then)
+        if kind != "ok":
+            V("valid-config-loads", "valid-configuration-rejected-at-reload", {"exit": res, "mentions": _brief(mentions)}, "loads")
+            return Outcome(vio, True, classes, sample=case)
+        if then:
+            want = norm(g, name, then[name][0])
+            src = "file (edited)"
+        elif "dict" in mentions:
+            want = norm(g, name, mentions["dict"][name][0])
+            src = "dict"
+        else:
+            want = g["defaults"][name]
+            src = "default"
+        if not same(res[name], want):
+            V("source-never-changes-what-it-does-not-mention", "value-after-reload-differs:%s" % ("mention-removed" if not then else "mention-changed"),
+              {"setting": name, "got": repr(res[name]), "first": repr(first[0]), "edited_file": _brief({"file": then})},
+              {"want": repr(want), "from": src})
+        else:
+            for other, dv in g["defaults"].items():
+                if other in (name, "default_proc_name", "config"):
+                    continue
+                if not same(res[other], dv):
+                    V("unmentioned-keeps-default", "unmentioned-setting-changed-at-reload", {"setting": other, "got": repr(res[other])}, {"default": repr(dv)})
+                    break
+        return Outcome(vio, True, classes + ["reload:%s" % ("removed" if not then else "changed")], sample=case)
 
     if case["kind"] == "invalid":
         name = case["setting"]
